@@ -10,11 +10,11 @@ ID = "C09"
 COQ_DIR = "C09"
 RUN_MOD = "C09.Run"
 MODEL_TARGETS = ["C09/Run.vo"]
-PROOF_TARGETS = ["C09/Lemmas.vo"]
+PROOF_TARGETS = ["C09/Lemmas.vo", "C09/LemmasSeq.vo"]
 PROPS = ["C09/Props.v"]
 ALLOWED_AXIOMS = []
 IMPL_TIMEOUT = 5.0
-COQ_SHARD = 60   # the printed observation of a shard must stay well below coqc's stack limit
+COQ_SHARD = 25   # the printed observation of a shard must stay well below coqc's stack limit (overflow seen at ~34000 characters; worst shard now ~20000)
 
 RULE = ("exhaustive over the finite colour space: the 8 names x fg/bg, all 256 int codes as fg and as bg, all 216 "
         "(r,g,b) cube triples (tuple and list, fg and bg), g0..g25 as fg and bg, all 32 effect combinations x 7 "
@@ -531,12 +531,58 @@ def coq_case(case, obs):
             else:
                 items.append(f"(@None fmtargs, {SX.cstr(it['text'])})")
         return f"Text {_clist(items)}"
+    if k == "seq":
+        return _coq_seq(case)
     return f"Strip {SX.cstr(case['s'])}"
+
+
+def _cnats(ns):
+    ns = list(ns)
+    return "[" + "; ".join(SX.cnat(n) for n in ns) + "]" if ns else "(@nil nat)"
+
+
+def _coq_op(op):
+    o = op[0]
+    if o == "add":
+        return f"OAdd {SX.cnat(op[1])} {_cnats(op[2])}"
+    if o == "addx":
+        return f"OAddText {SX.cnat(op[1])} {SX.cnat(op[2])}"
+    if o == "new":
+        return f"ONew {SX.cnat(op[1])} {_cnats(op[2])}"
+    if o == "copy":
+        return f"OCopy {SX.cnat(op[1])} {SX.cnat(op[2])}"
+    if o == "plus":
+        return f"OPlus {SX.cnat(op[1])} {SX.cnat(op[2])} {_cnats(op[3])}"
+    if o == "rplus":
+        return f"ORPlus {SX.cnat(op[1])} {SX.cnat(op[2])} {SX.cnat(op[3])}"
+    if o == "r":
+        return f"ORender {SX.cnat(op[1])}"
+    if o == "rp":
+        return f"ORenderPiece {SX.cnat(op[1])}"
+    if o == "b":
+        return f"OBytes {SX.cnat(op[1])} {SX.cstr(op[2])}"
+    raise ValueError(op)
+
+
+def _coq_seq(case):
+    fmts = _clist(_coq_args(a) for a in case["fmts"])
+    if not case["fmts"]:
+        fmts = "(@nil fmtargs)"
+    pcs = _clist((f"(Some {SX.cnat(pc['f'])}, {SX.cstr(pc['text'])})" if pc.get("f") is not None
+                  else f"(@None nat, {SX.cstr(pc['text'])})") for pc in case["pieces"])
+    if not case["pieces"]:
+        pcs = "(@nil (option nat * list Z))"
+    ops = _clist(_coq_op(op) for op in case["ops"])
+    if not case["ops"]:
+        ops = "(@nil op)"
+    return f"SeqOps {fmts} {pcs} {SX.cnat(case['n'])} {ops}"
 
 
 def _strings(case):
     if case["k"] == "fmt":
         return [case["text"]]
+    if case["k"] == "seq":
+        return [pc["text"] for pc in case["pieces"]] + [op[2] for op in case["ops"] if op[0] == "b"]
     if case["k"] == "text":
         return [it["text"] for it in case["items"]]
     return [case["s"]]
@@ -544,6 +590,10 @@ def _strings(case):
 
 def _all_colors(case):
     out = []
+    if case["k"] == "seq":
+        for a in case["fmts"]:
+            out += [a.get("color"), a.get("bg")]
+        return out
     for a in ([case["args"]] if case["k"] == "fmt" else [it["args"] for it in case.get("items", []) if "args" in it]):
         out += [a.get("color"), a.get("bg")]
     return out
@@ -591,6 +641,8 @@ def impl_run(case):
         except BaseException as e:  # noqa
             obs["b"] = _exc(e)
         return obs
+    if k == "seq":
+        return _impl_seq(case, ColorFmt, ColorBytes, CHText)
     # CHText of several parts
     parts = []
     strs = []
@@ -609,6 +661,64 @@ def impl_run(case):
         return {"r": ["ok", s, x.plain_text(), len(x), CHText.strip_colors(s)], "parts": strs}
     except BaseException as e:  # noqa
         return {"r": _exc(e)}
+
+
+def _impl_seq(case, ColorFmt, ColorBytes, CHText):
+    """One pool of formatter objects, one pool of piece objects (chunks / strs, each created once and
+    possibly added to several texts, several times), n texts that are extended, copied and RENDERED in
+    between.  Every observation is what a user sees at that moment: str(), plain_text(), len()."""
+    out = []
+    try:
+        fmts, bfmts = [], []
+        for a in case["fmts"]:
+            color, kw = _kwargs(a)
+            fmts.append(ColorFmt(color, **kw))
+            bfmts.append(ColorBytes(color, **kw))
+        pieces = [fmts[pc["f"]](pc["text"]) if pc.get("f") is not None else pc["text"] for pc in case["pieces"]]
+        texts = [CHText() for _ in range(case["n"])]
+        for op in case["ops"]:
+            o = op[0]
+            if o == "add":
+                x = texts[op[1]]
+                sel = [pieces[p] for p in op[2]]
+                how = op[3]
+                if how == "one":
+                    x += sel[0]
+                elif how == "tuple":
+                    x += tuple(sel)
+                else:
+                    x += sel
+                texts[op[1]] = x
+            elif o == "addx":
+                x = texts[op[1]]
+                x += texts[op[2]]
+                texts[op[1]] = x
+            elif o == "new":
+                texts[op[1]] = CHText(*[pieces[p] for p in op[2]])
+            elif o == "copy":
+                texts[op[1]] = CHText(texts[op[2]])
+            elif o == "plus":
+                sel = [pieces[p] for p in op[3]]
+                texts[op[1]] = texts[op[2]] + (sel[0] if op[4] == "one" else tuple(sel) if op[4] == "tuple" else sel)
+            elif o == "rplus":
+                texts[op[1]] = pieces[op[2]] + texts[op[3]]
+            elif o == "r":
+                x = texts[op[1]]
+                s = str(x)
+                out.append([s, x.plain_text(), len(x), CHText.strip_colors(s)])
+            elif o == "rp":
+                pc = pieces[op[1]]
+                out.append([str(pc), pc if isinstance(pc, str) else pc.plain_text(), len(pc)])
+            elif o == "b":
+                b = bfmts[op[1]](op[2].encode())
+                out.append(list(b) if isinstance(b, bytes) else None)
+            else:
+                raise RuntimeError(f"harness: unknown op {op!r}")
+    except RuntimeError:
+        raise
+    except BaseException as e:  # noqa
+        return {"r": _exc(e)}
+    return {"r": ["ok", out]}
 
 
 # ------------------------------------------------------------------ reference terminal (independent of coq/C09/Term.v)
@@ -712,6 +822,17 @@ def expected_sx(case, obs):
     r = obs["r"]
     if r[0] != "ok":
         return SX.dumps(SX.err(r[1]))
+    if k == "seq":
+        res = []
+        obs_ops = [op for op in case["ops"] if op[0] in ("r", "rp", "b")]
+        for op, o in zip(obs_ops, r[1]):
+            if op[0] == "r":
+                res.append([SX.s(o[0]), SX.s(o[1]), o[2], SX.s(o[3])])
+            elif op[0] == "rp":
+                res.append([SX.s(o[0]), SX.s(o[1]), o[2]])
+            else:
+                res.append(SX.ok(o) if o is not None else SX.err("NotBytes"))
+        return SX.dumps(SX.ok(res))
     return SX.dumps(SX.ok([SX.s(r[1]), SX.s(r[2]), r[3], SX.s(r[4]), _sx_term(r[1])]))
 
 
@@ -833,7 +954,8 @@ def oracle(case, obs):
         if r[0] == "err" and r[1] == "ValueError" and all(sig in ("valid-rejected", "bytes-differ") for sig, _ in out) \
                 and obs.get("b", r) == r:
             return []
-        if any(sig in ("malformed-sgr", "wrong-attrs", "valid-rejected") for sig, _ in out):
+        # (in an operation sequence the bool formatter is one of a pool: the failure keeps its own signature)
+        if case["k"] != "seq" and any(sig in ("malformed-sgr", "wrong-attrs", "valid-rejected") for sig, _ in out):
             return [("bool-color-malformed", msg) for _, msg in out]
     return out
 
@@ -845,6 +967,8 @@ def _oracle(case, obs):
     k = case["k"]
     if k == "strip":
         return out
+    if k == "seq":
+        return _oracle_seq(case, obs)
     if k == "fmt":
         args, text = case["args"], case["text"]
         status, want = _want(args)
@@ -920,6 +1044,147 @@ def _oracle(case, obs):
     return out
 
 
+def _script(case, upto=None):
+    """the operations as a python-like script (for messages)"""
+    ops = case["ops"] if upto is None else case["ops"][:upto + 1]
+    bits = []
+    for op in ops:
+        o = op[0]
+        if o == "add":
+            ps = [f"p{p}" for p in op[2]]
+            arg = ps[0] if op[3] == "one" else ("(" + ", ".join(ps) + ",)" if op[3] == "tuple" else "[" + ", ".join(ps) + "]")
+            bits.append(f"x{op[1]} += {arg}")
+        elif o == "addx":
+            bits.append(f"x{op[1]} += x{op[2]}")
+        elif o == "new":
+            bits.append(f"x{op[1]} = CHText({', '.join(f'p{p}' for p in op[2])})")
+        elif o == "copy":
+            bits.append(f"x{op[1]} = CHText(x{op[2]})")
+        elif o == "plus":
+            ps = [f"p{p}" for p in op[3]]
+            arg = ps[0] if op[4] == "one" else ("(" + ", ".join(ps) + ",)" if op[4] == "tuple" else "[" + ", ".join(ps) + "]")
+            bits.append(f"x{op[1]} = x{op[2]} + {arg}")
+        elif o == "rplus":
+            bits.append(f"x{op[1]} = p{op[2]} + x{op[3]}")
+        elif o == "r":
+            bits.append(f"str(x{op[1]})")
+        elif o == "rp":
+            bits.append(f"str(p{op[1]})")
+        else:
+            bits.append(f"B{op[1]}({op[2].encode()!r})")
+    used = sorted({p for op in ops if op[0] in ("add", "new") for p in op[2]} | {op[1] for op in ops if op[0] == "rp"}
+                  | {p for op in ops if op[0] == "plus" for p in op[3]} | {op[2] for op in ops if op[0] == "rplus"})
+    defs = []
+    for p in used:
+        pc = case["pieces"][p]
+        defs.append(f"p{p} = F{pc['f']}({pc['text']!r})" if pc.get("f") is not None else f"p{p} = {pc['text']!r}")
+    fused = sorted({case["pieces"][p]["f"] for p in used if case["pieces"][p].get("f") is not None}
+                   | {op[1] for op in ops if op[0] == "b"})
+    fdefs = [f"F{k}/B{k} = ColorFmt/ColorBytes({_descr(case['fmts'][k])})" for k in fused]
+    return "; ".join(fdefs + defs + bits)
+
+
+def _oracle_seq(case, obs):
+    """the statement on every observation of an operation sequence: whatever was done to a text before
+    (rendered, extended, copied, shares pieces with another text), str() shows exactly the pieces that
+    were put into it, each with the attributes it was asked for; strip_colors(str(x)) == x.plain_text()"""
+    out = []
+    fmts, pcs, ops = case["fmts"], case["pieces"], case["ops"]
+    fsts = [_want(a) for a in fmts]
+    r = obs["r"]
+    first_bad = next((i for i, (st, _) in enumerate(fsts) if st in ("invalid", "unclaimed")), None)
+    if r[0] == "err":
+        label = _script(case)
+        if first_bad is None:
+            lst = any(_is_list_color(a) for a in fmts) and r[1] == "TypeError"
+            out.append(("list-color-typeerror" if lst else "valid-rejected", f"{label} raised {r[1]}"))
+        elif fsts[first_bad][0] == "invalid" and r[1] != "ValueError":
+            out.append((_reject_sig(fmts[first_bad], r[1]), f"{label} raised {r[1]}, the property demands ValueError"))
+        return out
+    if any(st == "invalid" for st, _ in fsts):
+        out.append(("invalid-accepted", f"ColorFmt({_descr(fmts[first_bad])}) was built, the property demands ValueError"))
+        return out
+    if first_bad is not None or any(ESC in t for t in _strings(case)):
+        return out
+    psts = [fsts[pc["f"]] if pc.get("f") is not None else ("valid", dict(DEFAULT_ATTRS)) for pc in pcs]
+    hist = [[] for _ in range(case["n"])]
+    seen = [[] for _ in range(case["n"])]     # (text, rendered string) of earlier renderings of the same object
+    results = iter(r[1])
+    for step, op in enumerate(ops):
+        o = op[0]
+        if o == "add":
+            hist[op[1]] = hist[op[1]] + list(op[2])
+        elif o == "addx":
+            hist[op[1]] = hist[op[1]] + hist[op[2]]
+        elif o == "new":
+            hist[op[1]] = list(op[2])
+            seen[op[1]] = []
+        elif o == "copy":
+            hist[op[1]] = list(hist[op[2]])
+            seen[op[1]] = []
+        elif o == "plus":
+            hist[op[1]] = hist[op[2]] + list(op[3])
+            seen[op[1]] = []
+        elif o == "rplus":
+            hist[op[1]] = [op[2]] + hist[op[3]]
+            seen[op[1]] = []
+        elif o == "r":
+            s, plain, ln, stripped = next(results)
+            h = hist[op[1]]
+            label = _script(case, step)
+            exp = [(ord(ch), psts[p][1]) for p in h for ch in pcs[p]["text"]]
+            whole = "".join(pcs[p]["text"] for p in h)
+            t = py_term(s)
+            if t["bad"] or not t["ground"]:
+                out.append(("malformed-sgr", f"{label}: {s!r} contains a sequence an ECMA-48 terminal does not understand"))
+            elif t["attrs"] != DEFAULT_ATTRS:
+                out.append(("bleed", f"{label}: terminal is left in state {t['attrs']} after {s!r}"))
+            if t["shown"] != exp:
+                stale = any(s == s0 and w0 != whole for w0, s0 in seen[op[1]])
+                if stale:
+                    out.append(("stale-render", f"{label}: the last str() returned {s!r}, a rendering from before the text "
+                                                f"was extended; the text now consists of {whole!r}"))
+                else:
+                    out.append(("wrong-attrs", f"{label}: the last str() returned {s!r}, which does not show {whole!r} with "
+                                               f"the requested attributes"))
+            if plain != whole or ln != len(whole):
+                out.append(("plain-text", f"{label}: plain_text() = {plain!r}, len = {ln}; the pieces are {whole!r}"))
+            if stripped != plain:
+                out.append(("strip-leaves-sequence", f"{label}: strip_colors({s!r}) = {stripped!r}, plain_text() = {plain!r}"))
+            seen[op[1]].append((whole, s))
+        elif o == "rp":
+            s, plain, ln = next(results)
+            pc = pcs[op[1]]
+            label = _script(case, step)
+            _check_rendered(s, pc["text"], psts[op[1]][0], psts[op[1]][1], out, label)
+            if plain != pc["text"] or ln != len(pc["text"]):
+                out.append(("plain-text", f"{label}: plain_text() = {plain!r}, len = {ln}; the text is {pc['text']!r}"))
+            if CHText_strip_ref(s) != pc["text"]:
+                out.append(("strip-leaves-sequence", f"{label}: {s!r} minus its ESC[..m sequences is not {pc['text']!r}"))
+        elif o == "b":
+            b = next(results)
+            label = _script(case, step)
+            try:
+                s = bytes(b).decode() if b is not None else None
+            except (UnicodeDecodeError, ValueError):
+                s = None
+            if s is None:
+                out.append(("bytes-differ", f"{label}: the bytes formatter returned {b!r}"))
+            else:
+                n0 = len(out)
+                _check_rendered(s, op[2], fsts[op[1]][0], fsts[op[1]][1], out, label)
+                out[n0:] = [("bytes-differ", m) for _, m in out[n0:]]
+    return out
+
+
+_REF_SGR = re.compile(r"\x1b\[[0-9;:]*m")
+
+
+def CHText_strip_ref(s):
+    """what strip_colors has to do with an emitted string (independent of the implementation's pattern)"""
+    return _REF_SGR.sub("", s)
+
+
 def _descr(a):
     color, kw = _kwargs(a)
     bits = [repr(color)] + [f"{k}={v!r}" for k, v in kw.items() if v is not None and not (k == "no_color" and v is False)]
@@ -974,6 +1239,195 @@ def _effects(mask, truthy=True):
 
 def _fmt(args, text):
     return {"k": "fmt", "args": args, "text": text}
+
+
+# ---- operation sequences on mutable texts over shared formatter / piece objects
+def _variants(rng, a):
+    """formatters that a cache keyed too coarsely would confuse with `a`"""
+    out = []
+    b = dict(a)
+    b.update({e: not a.get(e) for e in rng.sample(EFFECTS, rng.randint(1, 2))})
+    out.append(b)                                                       # same colours, other effects
+    out.append(dict(a, color=a.get("bg"), bg=a.get("color")))           # fg and bg swapped
+    out.append(dict(a, no_color=True))
+    c = a.get("color")
+    if c is not None and "i" in c:
+        if c["i"] in (0, 1):
+            out.append(dict(a, color={"b": bool(c["i"])}))              # 1 == True, 0 == False
+        out.append(dict(a, color={"i": (c["i"] + rng.choice([1, 10, 100])) % 256}))
+        if c["i"] == 0:
+            out.append(dict(a, color=None))
+    if c is not None and ("t" in c or "l" in c):
+        v = c.get("t", c.get("l"))
+        out.append(dict(a, color={"l" if "t" in c else "t": list(v)}))  # tuple vs list: equal prefix
+        out.append(dict(a, color={"i": 16 + 36 * v[0] + 6 * v[1] + v[2]}))
+        out.append(dict(a, color={"t": list(reversed(v))}))
+    if c is not None and "s" in c and c["s"].startswith("g"):
+        out.append(dict(a, color={"i": 232 + int(c["s"][1:])}))
+    if c is not None and "s" in c and c["s"] in ANSI_NAMES:
+        out.append(dict(a, color={"i": ANSI_NAMES.index(c["s"])}))      # RED (31) vs 1 (38:5:1)
+        out.append(dict(a, bg=c, color=None))
+    return [{k: v for k, v in x.items() if v is not None or k == "color"} for x in out]
+
+
+def _seq_pool(rng):
+    fmts = []
+    for _ in range(rng.randint(1, 2)):
+        a = {"color": _valid_color(rng) if rng.random() < 0.9 else {"i": rng.choice([0, 1])},
+             "bg": _valid_color(rng) if rng.random() < 0.3 else None}
+        a.update(_effects(rng.randrange(32) if rng.random() < 0.4 else 0))
+        a = {k: v for k, v in a.items() if v is not None or k == "color"}
+        fmts.append(a)
+        vs = _variants(rng, a)
+        fmts += rng.sample(vs, min(len(vs), rng.randint(0, 2)))
+    if rng.random() < 0.3:
+        fmts.append({"color": None})
+    if rng.random() < 0.03:
+        fmts.insert(rng.randrange(len(fmts) + 1), {"color": rng.choice(INVALID_COLORS)})
+    rng.shuffle(fmts)
+    return fmts[:5]
+
+
+def _seq_pieces(rng, fmts, lo=3, hi=7):
+    pcs = []
+    for _ in range(rng.randint(lo, hi)):
+        if rng.random() < 0.25:
+            pcs.append({"text": _text(rng, 0, 3)})
+        elif pcs and rng.random() < 0.15:
+            pcs.append(dict(rng.choice(pcs)))                           # an equal piece, another object
+        else:
+            pcs.append({"f": rng.randrange(len(fmts)), "text": _text(rng, 0, 4)})
+    return pcs
+
+
+MAX_OBS = 8
+
+
+def _seq_random(rng):
+    fmts = _seq_pool(rng)
+    pcs = _seq_pieces(rng, fmts)
+    n = rng.randint(1, 3)
+    ops = []
+    nobs = 0
+    last_added = {}
+    for _ in range(rng.randint(4, 12)):
+        r = rng.random()
+        i = rng.randrange(n)
+        if r < 0.30:
+            p = rng.randrange(len(pcs))
+            if i in last_added and rng.random() < 0.5:
+                # the same piece again, or one of the same formatter: merged into the last chunk
+                same = [q for q in range(len(pcs)) if pcs[q].get("f") == pcs[last_added[i]].get("f")]
+                p = rng.choice(same)
+            ops.append(["add", i, [p], "one"])
+            last_added[i] = p
+        elif r < 0.40:
+            ps = [rng.randrange(len(pcs)) for _ in range(rng.randint(0, 3))]
+            ops.append(["add", i, ps, rng.choice(["list", "tuple"])])
+            if ps:
+                last_added[i] = ps[-1]
+        elif r < 0.48:
+            ops.append(["addx", i, rng.randrange(n)])
+        elif r < 0.53:
+            ps = [rng.randrange(len(pcs)) for _ in range(rng.randint(0, 3))]
+            ops.append(["new", i, ps])
+            last_added.pop(i, None)
+            if ps:
+                last_added[i] = ps[-1]
+        elif r < 0.58:
+            ops.append(["copy", i, rng.randrange(n)])
+        elif r < 0.63:
+            ps = [rng.randrange(len(pcs)) for _ in range(rng.randint(1, 2))]
+            ops.append(["plus", i, rng.randrange(n), ps, "one" if len(ps) == 1 and rng.random() < 0.7 else rng.choice(["list", "tuple"])])
+            last_added[i] = ps[-1]
+        elif r < 0.66:
+            ops.append(["rplus", i, rng.randrange(len(pcs)), rng.randrange(n)])
+            last_added.pop(i, None)
+        elif nobs < MAX_OBS:
+            nobs += 1
+            if r < 0.90:
+                ops.append(["r", i])
+                if rng.random() < 0.15 and nobs < MAX_OBS:
+                    nobs += 1
+                    ops.append(["r", i])                                # twice, nothing in between
+            elif r < 0.95:
+                ops.append(["rp", rng.randrange(len(pcs))])
+            else:
+                ops.append(["b", rng.randrange(len(fmts)), _text(rng, 0, 4)])
+    if nobs < MAX_OBS:
+        ops.append(["r", rng.randrange(n)])
+    # a text that was changed is looked at again: render it right after about half of the changes
+    out = []
+    for op in ops:
+        out.append(op)
+        if op[0] in ("add", "addx", "new", "copy", "plus", "rplus") and nobs < MAX_OBS and rng.random() < 0.5:
+            nobs += 1
+            out.append(["r", op[1] if rng.random() < 0.8 else rng.randrange(n)])
+    return {"k": "seq", "fmts": fmts, "pieces": pcs, "n": n, "ops": out}
+
+
+def _seq_templates(rng):
+    """the histories a memoised / aliased implementation gets wrong, over a random pool"""
+    out = []
+    fmts = _seq_pool(rng)
+    fmts = [a for a in fmts if ref_colour(a.get("color"))[0] == "valid"] or [{"color": {"i": 9}}]
+    k = rng.randrange(len(fmts))
+    k2 = rng.randrange(len(fmts))
+    t = [_text(rng, 1, 3) for _ in range(5)]
+    pcs = [{"f": k, "text": t[0]}, {"f": k, "text": t[1]}, {"text": t[2]}, {"text": t[3]}, {"f": k2, "text": t[4]},
+           {"f": k, "text": t[0]}]
+
+    def mk(n, ops):
+        out.append({"k": "seq", "fmts": fmts, "pieces": pcs, "n": n, "ops": ops})
+    # render, extend with the same colour (merge into the last chunk), render, render
+    mk(1, [["add", 0, [0], "one"], ["r", 0], ["add", 0, [1], "one"], ["r", 0], ["r", 0]])
+    mk(1, [["new", 0, [4, 0]], ["r", 0], ["add", 0, [1], rng.choice(["list", "tuple"])], ["r", 0], ["add", 0, [4], "one"], ["r", 0]])
+    # plain after plain
+    mk(1, [["add", 0, [2], "one"], ["r", 0], ["add", 0, [3], "one"], ["r", 0], ["add", 0, [0], "one"], ["r", 0]])
+    # the empty text is rendered first
+    mk(1, [["r", 0], ["add", 0, [0], "one"], ["r", 0], ["add", 0, [2], "one"], ["r", 0]])
+    # a copy and its source go separate ways
+    mk(2, [["new", 0, [0, 2]], ["r", 0], ["copy", 1, 0], ["r", 1], ["add", 0, [3], "one"], ["add", 1, [1], "one"], ["r", 1], ["r", 0]])
+    mk(2, [["add", 0, [0], "one"], ["copy", 1, 0], ["add", 0, [1], "one"], ["r", 1], ["r", 0]])
+    mk(2, [["add", 0, [0], "one"], ["addx", 1, 0], ["add", 1, [5], "one"], ["r", 0], ["r", 1], ["add", 0, [1], "one"], ["r", 1], ["r", 0]])
+    # one piece object in two texts, both extended with the same colour; the piece itself afterwards
+    mk(2, [["add", 0, [0], "one"], ["add", 1, [0], "one"], ["add", 0, [1], "one"], ["r", 1], ["r", 0], ["rp", 0], ["add", 1, [5], "one"], ["r", 1], ["rp", 0]])
+    # a text added to itself, rendered before and after
+    mk(1, [["new", 0, [0, 4]], ["r", 0], ["addx", 0, 0], ["r", 0], ["addx", 0, 0], ["r", 0]])
+    # render / change / render twice: every kind of += at every kind of seam; then the source of a
+    # `+= text` is changed and both are looked at again
+    others = [j for j in range(len(fmts)) if _want(fmts[j])[1] != _want(fmts[k])[1]]
+    kd = rng.choice(others) if others else k
+    pcs2 = [{"f": k, "text": t[0]}, {"f": k, "text": t[1]}, {"text": t[2]}, {"text": t[3]}, {"f": kd, "text": t[4]},
+            {"f": k, "text": ""}, {"text": ""}]
+    seams = {"same": ([4, 0], [1]), "diff": ([0], [4]), "plain": ([0, 2], [3]), "empty": ([0], [5, 6]), "first": ([], [0]),
+             "several": ([2, 0], [1, 4, 3])}
+    for seam, (init, added) in seams.items():
+        for how in ("one", "list", "tuple", "addx", "self"):
+            if how == "one":
+                ops = [["new", 0, init], ["r", 0]] + [["add", 0, [p], "one"] for p in added] + [["r", 0], ["r", 0]]
+            elif how in ("list", "tuple"):
+                ops = [["new", 0, init], ["r", 0], ["add", 0, added, how], ["r", 0], ["r", 0]]
+            elif how == "addx":
+                ops = [["new", 0, init], ["new", 1, added], ["r", 0], ["r", 1], ["addx", 0, 1], ["r", 0], ["r", 1],
+                       ["add", 1, [1], "one"], ["r", 0], ["r", 1]]
+            else:
+                ops = [["new", 0, init + added], ["r", 0], ["addx", 0, 0], ["r", 0], ["r", 0]]
+            out.append({"k": "seq", "fmts": fmts, "pieces": pcs2, "n": 2, "ops": ops})
+    # x + piece and piece + x are new texts: the operand is not changed, and later changes of either do not show in the other
+    for seam, (init, added) in seams.items():
+        how = rng.choice(["one", "list", "tuple"]) if len(added) == 1 else rng.choice(["list", "tuple"])
+        out.append({"k": "seq", "fmts": fmts, "pieces": pcs2, "n": 2,
+                    "ops": [["new", 0, init], ["r", 0], ["plus", 1, 0, added, how], ["r", 0], ["r", 1], ["add", 0, [1], "one"], ["r", 1],
+                            ["r", 0], ["plus", 0, 0, added, how], ["r", 0]]})
+        out.append({"k": "seq", "fmts": fmts, "pieces": pcs2, "n": 2,
+                    "ops": [["new", 0, added], ["r", 0], ["rplus", 1, (init or [0])[-1], 0], ["r", 0], ["r", 1], ["add", 1, [1], "one"],
+                            ["r", 0], ["r", 1]]})
+    # pieces of one formatter with different texts, of different formatters with the same text
+    mk(1, [["rp", 0], ["rp", 1], ["rp", 5], ["rp", 4], ["rp", 0]])
+    # one bytes formatter for several texts, several bytes formatters for one text
+    mk(1, [["b", k, t[0]], ["b", k, t[1]], ["b", k2, t[0]], ["b", k, t[0]], ["rp", 0]])
+    return out
 
 
 def gen_cases(rng, tier):
@@ -1059,6 +1513,31 @@ def gen_cases(rng, tier):
     cases.append({"k": "text", "items": [{"args": {"color": {"b": True}}, "text": "ab"}, {"args": {"color": {"i": 1}}, "text": "cd"}]})
     cases.append({"k": "text", "items": []})
     cases.append({"k": "text", "items": [{"args": {"color": {"i": 300}}, "text": "a"}, {"args": {"color": {"d": 1}}, "text": "b"}]})
+    # --- texts are mutable: operation sequences (render, extend, render again ...) over shared objects
+    for _ in range(2500 if big else 260):
+        cases.append(_seq_random(rng))
+    for _ in range(60 if big else 8):
+        cases += _seq_templates(rng)
+    # every pair of formatters a coarse cache key confuses, in one process, used after all were created
+    conf = [{"color": {"i": 1}}, {"color": {"b": True}}, {"bg": {"i": 1}, "color": None}, {"color": {"i": 1}, "bold": True},
+            {"color": {"i": 1}, "no_color": True}, {"color": {"s": "RED"}}, {"color": {"t": [0, 0, 1]}}, {"color": {"l": [0, 0, 1]}},
+            {"color": {"i": 17}}, {"color": {"i": 0}}, {"color": None}, {"color": {"b": False}}, {"color": {"s": "g1"}}, {"color": {"i": 233}},
+            {"color": {"i": 1}, "bg": {"i": 2}}, {"color": {"i": 2}, "bg": {"i": 1}}, {"color": None, "bold": True}, {"color": None, "faint": True}]
+    for lo in range(0, len(conf), 3):
+        fm = conf[lo:] + conf[:lo]
+        fm = fm[:6]
+        cases.append({"k": "seq", "fmts": fm, "pieces": [{"f": i, "text": "ab"[i % 2]} for i in range(6)], "n": 1,
+                      "ops": [["rp", i] for i in range(3)] + [["b", i, "c"] for i in range(3, 6)]})
+        cases.append({"k": "seq", "fmts": fm, "pieces": [{"f": i, "text": "xy"} for i in range(6)], "n": 2,
+                      "ops": [["new", 0, [0, 1, 2, 3, 4, 5]], ["r", 0], ["new", 1, [5, 4, 3]], ["add", 1, [3], "one"], ["r", 1], ["r", 0]]})
+    # values that are == (and hash alike) but are different colour specifications: 2 / 2.0, True / 1.0, (1,2,3) / (1.0,2.0,3.0)
+    for first, second in (({"i": 2}, {"f": 2.0}), ({"b": True}, {"f": 1.0}), ({"i": 0}, {"f": 0.0}), ({"i": 1}, {"b": True}),
+                          ({"t": [1, 2, 3]}, {"t": [{"f": 1.0}, {"f": 2.0}, {"f": 3.0}]}), ({"t": [1, 0, 0]}, {"t": [{"b": True}, 0, 0]}),
+                          ({"i": 0}, {"b": False})):
+        for slot in ("color", "bg"):
+            fm = [{"color": None, slot: first, "bold": True}, {"color": None, slot: second, "bold": True}]
+            cases.append({"k": "seq", "fmts": fm, "pieces": [{"f": 0, "text": "a"}, {"f": 1, "text": "b"}], "n": 1,
+                          "ops": [["rp", 0], ["rp", 1], ["b", 0, "c"], ["b", 1, "d"]]})
     # --- strip_colors on arbitrary strings (model fidelity of the pattern; no claim)
     alpha = [ESC, ESC, "[", "[", ";", ":", "0", "1", "3", "8", "m", "m", "a", "K", "?", " ", "é", "\n"]
     for _ in range(2000 if big else 250):
@@ -1078,6 +1557,8 @@ def kind(case):
 def nontrivial(case, obs):
     if case["k"] == "strip":
         return ESC in case["s"]
+    if case["k"] == "seq":
+        return any(pc.get("f") is not None for pc in case["pieces"]) and any(op[0] in ("r", "rp", "b") for op in case["ops"])
     if case["k"] == "fmt":
         a = case["args"]
         return any(a.get(k) for k in ["color", "bg"] + EFFECTS)
@@ -1090,6 +1571,10 @@ def outcome(case, obs):
     if case["k"] == "strip":
         return "strip"
     r = obs["t"] if case["k"] == "fmt" else obs["r"]
+    if case["k"] == "seq" and r[0] == "ok":
+        ops = case["ops"]
+        again = any(ops[j][0] == "r" and any(ops[m][0] == "r" and ops[m][1] == ops[j][1] for m in range(j)) for j in range(len(ops)))
+        return "seq:ok:" + ("re-rendered" if again else "rendered-once")
     return case["k"] + ":" + (r[0] if r[0] == "ok" else r[1])
 
 
@@ -1104,6 +1589,17 @@ def shrink_candidates(case):
                 b = dict(a)
                 del b[key]
                 yield _fmt(b, case["text"])
+    elif case["k"] == "seq":
+        ops = case["ops"]
+        for i in range(len(ops)):
+            yield dict(case, ops=ops[:i] + ops[i + 1:])
+        for i, op in enumerate(ops):
+            if op[0] == "plus" and len(op[3]) > 1:
+                for j in range(len(op[3])):
+                    yield dict(case, ops=ops[:i] + [op[:3] + [op[3][:j] + op[3][j + 1:]] + op[4:]] + ops[i + 1:])
+            if op[0] in ("add", "new") and len(op[2]) > 1:
+                for j in range(len(op[2])):
+                    yield dict(case, ops=ops[:i] + [op[:2] + [op[2][:j] + op[2][j + 1:]] + op[3:]] + ops[i + 1:])
     elif case["k"] == "text":
         items = case["items"]
         if len(items) == 1 and "args" in items[0]:
